@@ -39,7 +39,7 @@ THEOREMS = ["JanetModel.Props.C09." + t for t in (
     "presentation_exists", "presentation_exists_top", "presentation_unique", "presentation_canonical", "presentation_idempotent", "presentation_roundtrip",   # every graph has exactly one presentation in reference-number order
     "asm_disasm_def", "asm_slotcount_covers", "asm_slotcount_le", "asm_slotcount_eq", "asm_disasm_def_tight",   # asm . disasm at funcdef level: slot count, janet_verify
     "asm_disasm_instr", "asm_disasm_bytecode",                                           # asm . disasm on instruction words / bytecode arrays
-    "abstract_hook_roundtrip", "int64_hooks_paired", "int64_box_roundtrip", "channel_hooks_paired", "channel_roundtrip", "peg_hooks_paired",  # abstract hook protocol
+    "abstract_hook_roundtrip", "int64_hooks_paired", "int64_box_roundtrip", "channel_hooks_paired", "channel_roundtrip", "peg_hooks_paired", "peg_roundtrip",  # abstract hook protocol
 )]
 
 CODE_OBLIGATIONS = ["JanetModel.Marsh.CodeObligations." + t for t in (
@@ -424,9 +424,10 @@ def hdr_defs(words, hdr, ses_ops=()):
         fields, syms, codes = hpart.split(";")
         va, sa, ar, mn, mx, sc, nc, nd, ne = [int(x) for x in fields.split(",")]
         sy = [] if syms == "-" else [tuple(int(x) for x in e.split(":")) for e in syms.split(",")]
-        cd = [tuple(int(x) for x in e.split(":")) for e in codes.split(",") if e]
+        cd = [tuple(int(x) for x in e.split(":")) for e in codes.split(",") if e and e[0] in "-0123456789"]
+        var = [(e[0], int(e[1:].split(":")[0]), int(e.split(":")[1])) for e in codes.split(",") if e and e[0] in "cdenw"]
         out.append({"n": n, "wmap": wmap, "vararg": va, "structarg": sa, "arity": ar, "min": mn, "max": mx, "slotcount": sc,
-                    "nconsts": nc, "ndefs": nd, "nenvs": ne, "syms": sy, "codes": cd, "extra": [], "parent": None, "walks_past_root": False})
+                    "nconsts": nc, "ndefs": nd, "nenvs": ne, "syms": sy, "codes": cd, "variants": var, "extra": [], "parent": None, "walks_past_root": False})
     # preorder + ndefs -> parents
     stack = []
     for d in out:
@@ -450,9 +451,18 @@ def hdr_defs(words, hdr, ses_ops=()):
     return out
 
 
-def asmdef_line(d, sc):
-    hx = "".join(d["wmap"].get(str(i), "00000000") for i in range(d["n"])) or "-"
-    return "asmdef %d %d %d %d %d %d %d %d %s %s%s" % (d["vararg"], d["arity"], d["min"], d["max"], sc, d["nconsts"], d["ndefs"], d["nenvs"], hx,
+def asmdef_line(d, sc, variant=None):
+    words = [d["wmap"].get(str(i), "00000000") for i in range(d["n"])]
+    nc, nd, ne = d["nconsts"], d["ndefs"], d["nenvs"]
+    if variant:
+        kind, k = variant
+        if kind == "c": nc = k
+        elif kind == "d": nd = k
+        elif kind == "e": ne = k
+        elif kind == "n": words = words[:k]
+        elif kind == "w": words[k] = "%08x" % ((int(words[k], 16) & ~0x7F & 0xFFFFFFFF) | 0x7F)
+    hx = "".join(words) or "-"
+    return "asmdef %d %d %d %d %d %d %d %d %s %s%s" % (d["vararg"], d["arity"], d["min"], d["max"], sc, nc, nd, ne, hx,
                                                        ",".join(str(x) for x in d["extra"]) or "-", "".join(" %d %d %d" % e for e in d["syms"]))
 
 
@@ -1121,6 +1131,9 @@ def run(ctx):
                         for sc, code in fd["codes"]:
                             dlines.append(asmdef_line(fd, sc))
                             dmeta.append((l, k, fd, gd, sc, code, gds is None))
+                        for kind, kk, code in fd["variants"]:
+                            dlines.append(asmdef_line(fd, fd["slotcount"], (kind, kk)))
+                            dmeta.append((l, k, fd, None, "%s%d" % (kind, kk), code, False))
             dm = ctx.model(dlines, exe=exe) if exe and dlines else []
             rejected_by_model = {}
             for (l, k, fd, gd, sc, code, rejected), r in zip(dmeta, dm):
